@@ -189,6 +189,8 @@ def scenario(k: Kernel, plan, obs):
         RLock = staticmethod(ctx.RLock)
 
     st.multiprocessing = MP
+    from sim.prims import install_threading_shims
+    install_threading_shims(k, [st])
     tmp = obs["tmpdir"]
     if plan["torn"] or plan["write_fault"]:
         TornFileIO.kernel = k
